@@ -28,6 +28,8 @@ pub enum Op {
     Image(m::Image),
     Cloud(CloudSpec),
     Ext(String, String),
+    /// register_extension whose failure is tolerated (the harness models which ones must fail)
+    ExtTry(String, String),
     Creation(Option<m::DateTime>),
     CoordMeta(Option<String>),
 }
@@ -53,6 +55,8 @@ pub struct RunResult {
     pub caps: Vec<usize>,
     pub finalized: bool,
     pub api_calls: u64,
+    /// outcome of every ExtTry op
+    pub ext_try: Vec<bool>,
 }
 
 pub fn describe_op(op: &Op) -> String {
@@ -84,6 +88,7 @@ pub fn describe_op(op: &Op) -> String {
             if c.abandon { ", abandoned" } else { "" }
         ),
         Op::Ext(p, u) => format!("register_extension({p:?},{u:?})"),
+        Op::ExtTry(p, u) => format!("try register_extension({p:?},{u:?})"),
         Op::Creation(c) => format!("set_creation({c:?})"),
         Op::CoordMeta(c) => format!("set_coordinate_metadata({c:?})"),
     }
@@ -161,6 +166,10 @@ fn run_inner(dev: Dev, p: &Program, o: &ExecOpts, res: &mut RunResult, cur: &mut
         *cur = i;
         match op {
             Op::Ext(pf, uri) => tr!(i, "register_extension", w.register_extension(Extension::new(pf, uri))),
+            Op::ExtTry(pf, uri) => {
+                res.api_calls += 1;
+                res.ext_try.push(w.register_extension(Extension::new(pf, uri)).is_ok());
+            }
             Op::Creation(c) => {
                 res.api_calls += 1;
                 w.set_creation(c.as_ref().map(dt_to_e57))
@@ -340,6 +349,12 @@ pub fn expected_scene(p: &Program) -> m::Scene {
     for op in &p.ops {
         match op {
             Op::Ext(pf, u) => s.extensions.push((pf.clone(), u.clone())),
+            Op::ExtTry(pf, u) => {
+                // reference model: a namespace prefix can be registered once
+                if !s.extensions.iter().any(|(p, _)| p == pf) {
+                    s.extensions.push((pf.clone(), u.clone()));
+                }
+            }
             Op::Creation(c) => s.creation = c.clone(),
             Op::CoordMeta(c) => s.coordinate_metadata = c.clone(),
             Op::Blob(_) => {}
@@ -442,11 +457,40 @@ pub fn read_back(bytes: Vec<u8>) -> Result<ReadBack, (String, String)> {
     Ok(rb)
 }
 
+/// a destination that accepts at most `max` bytes per write call (legal for any `Write`)
+pub struct ShortSink {
+    pub data: Vec<u8>,
+    pub max: usize,
+    pub calls: usize,
+}
+impl std::io::Write for ShortSink {
+    fn write(&mut self, b: &[u8]) -> std::io::Result<usize> {
+        let n = b.len().min(self.max);
+        self.data.extend_from_slice(&b[..n]);
+        self.calls += 1;
+        Ok(n)
+    }
+    fn flush(&mut self) -> std::io::Result<()> {
+        Ok(())
+    }
+}
+
 pub fn read_blob<T: std::io::Read + std::io::Seek>(r: &mut E57Reader<T>, offset: u64, length: u64) -> Result<Vec<u8>, String> {
     let mut out = Vec::new();
     let n = r.blob(&Blob::new(offset, length), &mut out).map_err(|e| err_string(&e))?;
     if n != length || out.len() as u64 != length {
         return Err(format!("blob() returned Ok({n}) and wrote {} bytes for a descriptor of length {length}", out.len()));
+    }
+    // the same extraction into a destination that takes few bytes per write call
+    let mut short = ShortSink { data: Vec::new(), max: 13 + (offset % 7) as usize * 73, calls: 0 };
+    let n2 = r.blob(&Blob::new(offset, length), &mut short).map_err(|e| format!("into a short-write destination: {}", err_string(&e)))?;
+    if n2 != length || short.data != out {
+        return Err(format!(
+            "blob() into a destination accepting {} bytes per write call returned Ok({n2}) and delivered {} bytes (equal to the data: {}) for a descriptor of length {length}",
+            short.max,
+            short.data.len(),
+            short.data == out
+        ));
     }
     Ok(out)
 }
